@@ -587,6 +587,7 @@ class Sched:
         self.prev_hot = [False] * len(thread_calls)
         self.kill = None
         self.killed = None
+        self._pos = None
         self.seen_lines = set() if plan.wants_novel else None
         self.a5 = a5mod
         self.calls = thread_calls
@@ -652,7 +653,7 @@ class Sched:
         if loc is not None:
             self.switch_pairs.add((loc, self.cur_f[target]))
         if len(self.switches) < self.log_limit:
-            self.switches.append([self.steps, t, target, loc, self.tsteps[t]])
+            self.switches.append([self.steps, t, target, loc, self.tsteps[t], self._pos])
         self.cur = target
         self.locks[target].release()
 
@@ -682,6 +683,7 @@ class Sched:
         # step unconditionally when it gets the baton back (guaranteed progress)
         target = self.plan.preempt(t, self.tsteps[t], self.steps, self.runnable())
         if target is not None and target != t:
+            self._pos = pos
             self._transfer(t, target, self.seam.loc(code, pos))
             self.locks[t].acquire()
             self.plan.resumed(t)
@@ -778,7 +780,7 @@ def run_threads_node(a5mod, seam, spec, hot=None):
         outcome, _ = apply_call(a5mod, call['f'], args)
         warm_out.append(outcome)
     plan = make_plan(spec['plan'], rng, len(spec['threads']), spec.get('est_len', 1000))
-    s = Sched(seam, a5mod, spec['threads'], plan, spec['budget'], hot=hot)
+    s = Sched(seam, a5mod, spec['threads'], plan, spec['budget'], hot=hot, log_limit=spec.get('log_limit', 4000))
     s.kill = spec.get('kill')
     s.run()
     post = post_seq = None
